@@ -58,6 +58,7 @@ class Obs:
     transitions: int = 1  # (state, symbol) steps executed on the implementation
     stats: dict = field(default_factory=dict)  # free counters, summed into the evidence
     validated: int = 1  # executions compared against the reference model / oracle
+    canon_set: Any = None  # optional: several canonical states visited by one case (already hashed ints)
 
 
 class System:
@@ -176,7 +177,10 @@ class _Acc:
         for k, v in obs.stats.items():
             self.stats[k] += v
         self.outcomes.add(h64(obs.digest))
-        self.canon.add(h64(case if obs.canon is None else obs.canon))
+        if obs.canon_set is not None:
+            self.canon.update(obs.canon_set)
+        else:
+            self.canon.add(h64(case if obs.canon is None else obs.canon))
         if obs.nontrivial:
             self.nontrivial += 1
             if not system.distinct_by_construction:
